@@ -1,6 +1,7 @@
 /- Line-protocol driver for C18 (image export model, BMP reader spec, inline-image scanner). -/
 import PdfVerif.Model.Image
 import PdfVerif.Model.Inline
+import PdfVerif.Model.InlineDict
 import PdfVerif.Spec.Bmp
 
 open PdfVerif PdfVerif.Image PdfVerif.Gen.ImageGen
@@ -13,13 +14,46 @@ def fltOfChar : Char → Option Flt
 def fltsOf (s : String) : Option (List Flt) :=
   if s == "-" then some [] else s.toList.mapM fltOfChar
 
-def csOf : String → Option CS
-  | "G" => some .gray | "RGB" => some .rgb | "CMYK" => some .cmyk | "g" => some .inlGray
-  | "rgb" => some .inlRgb | "I" => some .other | "N" => some .none
-  | _ => none
-
 def namesOf (s : String) : Option (List Bytes) :=
   if s == "-" then some [] else (s.splitOn ",").mapM bytesOfHex
+
+open PdfVerif.InlineDict in
+/-- Operand lists on the wire: `i<int>`, `b0|b1`, `n<hex|->`, `o`, `[` … `]`, separated by `,`. -/
+partial def parseVals : List String → List Val → Option (List Val × List String)
+  | [], acc => some (acc.reverse, [])
+  | "]" :: rest, acc => some (acc.reverse, rest)
+  | "[" :: rest, acc =>
+    match parseVals rest [] with
+    | some (xs, rest') => parseVals rest' (Val.arr xs :: acc)
+    | none => none
+  | t :: rest, acc =>
+    if t == "o" then parseVals rest (Val.other :: acc)
+    else if t == "s" then parseVals rest (Val.str :: acc)
+    else if t == "b0" then parseVals rest (Val.bool false :: acc)
+    else if t == "b1" then parseVals rest (Val.bool true :: acc)
+    else if t.startsWith "i" then
+      match (t.drop 1).toString.toInt? with
+      | some n => parseVals rest (Val.int n :: acc)
+      | none => none
+    else if t.startsWith "n" then
+      match bytesOfHex (t.drop 1).toString with
+      | some b => parseVals rest (Val.name b :: acc)
+      | none => none
+    else none
+
+open PdfVerif.InlineDict in
+partial def showVal : Val → String
+  | .int n => "i" ++ toString n
+  | .bool b => if b then "b1" else "b0"
+  | .name s => "n" ++ hexOrDash s
+  | .arr xs => "[" ++ ",".intercalate (xs.map showVal) ++ "]"
+  | .str => "s"
+  | .other => "o"
+
+open PdfVerif.InlineDict in
+def showOptVal : Option Val → String
+  | some v => showVal v
+  | none => "none"
 
 def step (line : String) : String :=
   match words line with
@@ -28,9 +62,14 @@ def step (line : String) : String :=
     | some x => toString (align32 x)
     | none => "bad-op"
   | ["export", flt, cs, bits, w, h, name, existing, data] =>
-    match fltsOf flt, csOf cs, bits.toNat?, w.toNat?, h.toNat?, bytesOfHex name, namesOf existing, bytesOfHex data with
+    let csl : Option (List (Option InlineDict.Val)) :=
+      if cs == "none" then some [none] else if cs == "empty" then some []
+      else match parseVals (cs.splitOn ",") [] with
+        | some (vs, []) => some (vs.map some)
+        | _ => none
+    match fltsOf flt, csl, bits.toNat?, w.toNat?, h.toNat?, bytesOfHex name, namesOf existing, bytesOfHex data with
     | some fl, some cs, some bits, some w, some h, some name, some ex, some data =>
-      match exportImage ⟨fl, cs, bits, w, h, name, data⟩ ex with
+      match exportImage ⟨fl, InlineDict.csClass cs, InlineDict.cmykMember cs, bits, w, h, name, data⟩ ex with
       | .ok (nm, file) => "OK " ++ hexOrDash nm ++ " " ++ hexOrDash file
       | .error e => "E:" ++ e.toString
     | _, _, _, _, _, _, _, _ => "bad-op"
@@ -46,6 +85,29 @@ def step (line : String) : String :=
           w.toNat?, h.toNat?, bytesOfHex data with
     | some k, some w, some h, some d => hexOrDash (Bmp.samplesRGB k w h d)
     | _, _, _, _ => "bad-op"
+  | ["inlinedict", objs, input] =>
+    let toks := if objs == "-" then [] else objs.splitOn ","
+    match parseVals toks [], bytesOfHex input with
+    | some (vs, []), some inp =>
+      match InlineDict.processID vs inp with
+      | .error e => "E:" ++ e.toString
+      | .ok p =>
+        let sz := match InlineDict.inlineSize p.dict with | some n => toString n | none => "-"
+        let lt := match InlineDict.doEI p.dict with
+          | none => "none"
+          | some f => "src=" ++ showVal f.srcW ++ "/" ++ showVal f.srcH ++ ";bits=" ++ showVal f.bits ++ ";cs=" ++
+              "|".intercalate (f.colorspace.map showOptVal) ++ ";im=" ++ showOptVal f.imagemask
+        "OK ei=" ++ (if p.pushEI then "1" else "0") ++ " size=" ++ sz ++ " data=" ++ hexOrDash p.data ++
+          " consumed=" ++ toString p.consumed ++ " lt=" ++ lt
+    | _, _ => "bad-op"
+  | ["inlinelen", target, len, input] =>
+    match bytesOfHex target, bytesOfHex input with
+    | some t, some inp =>
+      if t.isEmpty then "bad-op" else
+      match Inline.getInlineDataLen t (if len == "-" then none else len.toNat?) inp with
+      | some (d, n) => "OK " ++ hexOrDash d ++ " " ++ toString n
+      | none => "EOF"
+    | _, _ => "bad-op"
   | ["inline", target, input] =>
     match bytesOfHex target, bytesOfHex input with
     | some t, some inp =>
